@@ -113,6 +113,13 @@ func c11Check(cs c11Case) (ok bool, sig, expected, observed string) {
 			argSrc = wrappedArgs(cs.Args)
 		}
 		src := "{{ r = " + recvSrc + "." + cs.Fn + "(" + argSrc + ") }}[{{ r }}]"
+		// the receiver variable is read again after the call: it still holds what it held
+		if pr, okp := cs.Recv.Print(); cs.AsVar && okp && !cs.Wrap {
+			o2 := runString("{{ r = x."+cs.Fn+"("+argSrc+") }}{{ x }}", dataMap(data))
+			if o2.Kind == KOut && o2.Out != pr {
+				return false, "receiver-changed-by-the-call/" + cs.Recv.K + "." + cs.Fn, "the receiver variable prints " + strconvQuote(pr) + " after {{ r = x." + cs.Fn + "(" + argSrc + ") }}", o2.String()
+			}
+		}
 		if cs.Wrap {
 			src = "{{ q = true.then(1, 2) }}" + src // an earlier call with arguments in the same evaluation
 		}
@@ -521,6 +528,12 @@ func c11ArgTuples(fn string, recv Val) [][]Val {
 			}
 		}
 		add(vStr("."), vInt(2), vInt(1))
+		// separators that end in a digit, counts of two digits: ("#", 12) and ("#1", 2) spell the same "#12"
+		for _, sep := range []string{"#", "#1", "1", "", "-"} {
+			for _, n := range []int64{1, 2, 12, 11} {
+				add(vStr(sep), vInt(n))
+			}
+		}
 	case "then":
 		add(vStr("yes"))
 		add(vStr("yes"), vStr("no"))
@@ -589,7 +602,7 @@ func c11Run(c *Ctx) {
 	}
 	ints := []Val{vInt(math.MinInt64), vInt(-10), vInt(-1), vInt(0), vInt(1), vInt(9), vInt(10), vInt(math.MaxInt64), vInt(123)}
 	floats := []Val{vFloat(-1.5), vFloat(-0.5), vFloat(0), vFloat(0.4), vFloat(0.5), vFloat(1.5), vFloat(2.5), vFloat(-2.5), vFloat(3.99),
-		vFloat(1e19), vFloat(-1e19), vFloat(9.3e18)}
+		vFloat(1e19), vFloat(-1e19), vFloat(9.3e18), vFloat(9223372036854775808), vFloat(-9223372036854775808), vFloat(9223372036854774784)}
 	bools := []Val{vBool(true), vBool(false)}
 	groups := []struct {
 		kind  string
